@@ -1916,6 +1916,7 @@ def txFlows (env : Env) (db : Db) (prevCtx : Ctx) (tx : TxSpec) : List Flow :=
   | .batch =>
     let a := specBody env db ctx tx.body
     if a.accepted && preOk a.ctx then a.flows else (specBody env.later db a.ctx (laterBody tx.body)).flows
+  | .raw => (specBody env db Ctx.empty tx.body).flows
 
 /-- agreement of the model's outcome of a transaction with the spec's -/
 structure TxAgree (env : Env) (o : TxOut) (s : SpecOut) (flows : List Flow) (txc : Bool) : Prop where
@@ -2069,6 +2070,44 @@ theorem dbBatch_agree (env : Env) (h : env.t = expectedReturns) (db : Db) (ctx :
       (attempt_agree env.later (by rw [later_t]; exact h) true db (attempt env true db ctx body).st.ctx
         (laterBody body) (laterBody_propagating body hp) 2 _ _ _)
 
+/-- a context from NewTxMutateContext (inside an enclosing Db.Update) against its spec -/
+theorem dbRaw_agree (env : Env) (h : env.t = expectedReturns) (db : Db) (body : List Step) (hp : Propagating body) :
+    TxAgree env (dbRaw env db body) (specRawTx env db body) (specBody env db Ctx.empty body).flows true := by
+  have hr := runSteps_refines env h body hp (beginTx db Ctx.empty)
+    { accepted := true, db := db, flows := [], ctx := Ctx.empty, specified := true } [.handleCommit] rfl rfl rfl rfl
+  obtain ⟨r1, r2, r3, r4⟩ := hr
+  unfold dbRaw specRawTx specBody
+  cases hres : (runSteps env body (beginTx db Ctx.empty)).2 with
+  | err e =>
+    have hna : (specSteps env body { accepted := true, db := db, flows := [], ctx := Ctx.empty, specified := true }).accepted = false := by
+      cases hx : (specSteps env body { accepted := true, db := db, flows := [], ctx := Ctx.empty, specified := true }).accepted with
+      | false => rfl
+      | true => have := r2.mpr hx; rw [hres] at this; cases this
+    simp only [hres, hna, Bool.false_eq_true, if_false]
+    exact ⟨by simp [rollback], by simp [rollback], by simp [rollback, r1], r3, by simp [rollback],
+      fun hx => by simp [rollback] at hx, fun _ => by simp [rollback]⟩
+  | ok =>
+    have ha := r2.mp hres
+    obtain ⟨q1, q2, q3⟩ := r4 hres
+    simp only [hres, ha, if_true]
+    refine ⟨by simp [commit], ?_, ?_, r3, ?_, ?_, fun hne => absurd rfl hne⟩
+    · simp only [commit]; split <;> simpa [TxSt.enqueue] using q1
+    · simp only [commit]; split <;> simpa [TxSt.enqueue] using r1
+    · simp only [commit]; split <;> simpa [TxSt.enqueue, beginTx] using q3
+    · intro _
+      simp only [commit]
+      by_cases htx : env.txListeners > 0
+      · simp only [htx, if_true, TxSt.enqueue]
+        rw [q2]
+        simp only [List.flatMap_append, List.append_nil, List.flatMap_cons, List.flatMap_nil,
+          commitItem, flatMap_posts, commitList, r1, if_true]
+      · simp only [htx, if_false]
+        rw [q2]
+        have h0 : env.txListeners = 0 := by omega
+        simp only [List.flatMap_append, List.append_nil, List.flatMap_cons, List.flatMap_nil,
+          commitItem, flatMap_posts, commitList, r1, if_true, h0]
+        simp
+
 /-- the caller hands every operation error on (injected storage faults are allowed) -/
 def TxSpec.wellBehaved (tx : TxSpec) : Prop := Propagating tx.body
 
@@ -2080,6 +2119,7 @@ theorem runTx_agree (env : Env) (h : env.t = expectedReturns) (db : Db) (prevCtx
   cases hm : tx.mode with
   | update => exact dbUpdate_agree env h db _ tx.body hw
   | batch => exact dbBatch_agree env h db _ tx.body hw
+  | raw => exact dbRaw_agree env h db tx.body hw
 
 /-- all histories: the model's outcomes agree with the spec's, transaction by transaction -/
 inductive CaseAgree (env : Env) : List TxOut → List SpecOut → Prop
